@@ -141,6 +141,13 @@ def expected_set(en, fn, root_kind, root_obj, recursive):
         if recursive:
             occs += en.descendants(base, True)
         return set(ids(p) for p in en.items(occs, kind))
+    if root_kind == "library":
+        # a library stands for its definitions, a collection for its members: the union, each occurrence once
+        parts = [expected_set(en, fn, "definition", d, recursive) for d in root_obj.definitions]
+        return set().union(*parts) if all(p is not None for p in parts) else None
+    if root_kind == "list":
+        parts = [expected_set(en, fn, "href" if isinstance(o, tuple) else kind_of(o), o, recursive) for o in root_obj]
+        return set().union(*parts) if all(p is not None for p in parts) else None
     # plain element of the same kind as the function returns: all paths that end in it
     same = {"port": "hports", "ipin": "hpins", "cable": "hcables", "wire": "hwires"}
     if same.get(root_kind) == fn:
@@ -167,10 +174,12 @@ def _(w, e):
     root = e["root"]
     if root["r"] == "h":
         obj = need(w, root["h"])
+    elif root["r"] == "list":
+        obj = [need(w, m) if isinstance(m, str) else HRef.from_sequence([need(w, h) for h in m]) for m in root["members"]]
     else:
         seq = [need(w, h) for h in root["path"]]
         obj = HRef.from_sequence(seq)
-    res = list(FNS[e["fn"]](obj, recursive=e.get("recursive", False)))
+    res = list(FNS[e["fn"]](list(obj) if isinstance(obj, list) else obj, recursive=e.get("recursive", False)))
     w.last_query = (obj, res)
     if e.get("hold"):
         w.held_hrefs.append(res)
@@ -322,6 +331,22 @@ class QueryGen:
             if any(h is None for h in hs):
                 return None
             root = {"r": "occ", "path": hs}
+        elif x < 0.72:
+            # a collection of roots from different levels of the design (and sometimes a path)
+            c = [h for h in w.order if kind_of(w.handles[h]) in ("instance", "definition", "library")]
+            if not c:
+                return None
+            members = [r.choice(c) for _ in range(r.randint(2, 4))]
+            if r.random() < 0.3:
+                try:
+                    el = Elab(n)
+                except OverflowError:
+                    return None
+                if el.occ:
+                    hs = [w.handle_of(i) for i in r.choice(el.occ)]
+                    if all(h is not None for h in hs):
+                        members.append(hs)
+            root = {"r": "list", "members": members}
         else:
             kind = r.choice(["instance", "definition", "port", "cable", "ipin", "wire", "library"])
             c = [h for h in w.order if kind_of(w.handles[h]) == kind]
@@ -400,7 +425,7 @@ class C11(Prop):
             en = Enum(n)
         except OverflowError:
             return
-        root_kind = "href" if isinstance(obj, HRef) else kind_of(obj)
+        root_kind = "href" if isinstance(obj, HRef) else "list" if isinstance(obj, list) else kind_of(obj)
         disc = "%s/%s/%s" % (fn, root_kind, "rec" if ev.get("recursive") else "flat")
         top = n.top_instance
         contained = self.pins_inside(en) and all(p[-1].reference is None or (p[-1].reference.library is not None and
@@ -436,7 +461,13 @@ class C11(Prop):
         if res:
             w.count("probe.nonempty_query")
         root_obj = chain(obj) if isinstance(obj, HRef) else obj
-        if isinstance(obj, HRef) and kind_of(obj.item) != "instance":
+        if isinstance(obj, list):
+            root_obj = [chain(o) if isinstance(o, HRef) else o for o in obj]
+            if any(isinstance(o, tuple) and not en.path_exists(o) for o in root_obj):
+                want = None
+            else:
+                want = expected_set(en, fn, "list", root_obj, bool(ev.get("recursive")))
+        elif isinstance(obj, HRef) and kind_of(obj.item) != "instance":
             want = None
         elif isinstance(obj, HRef) and not en.path_exists(root_obj):
             want = set()
